@@ -37,7 +37,8 @@ PLANS = {
                      J('spawn', [16], 1, thorough_only=True), J('spawn', [2, 4], 1, 'nosteal', thorough_only=True),
                      J('spawn', [2, 4], 1, 'cbsteal', thorough_only=True), J('spawn', [2, 4], 1, 'randsteal', thorough_only=True), S('joinrace', [2, 4], 1), D('spawn', [2, 4], 'JOIN_,CO_,SPAWN_,POOL_,RUN_,SCHED_'), H('spawn', [2], 'JOIN_WAIT_REGISTERED,JOIN_TRIGGER_STORED,CO_DONE_BEFORE_TRIGGER'), J('coldpin', [2, 4], 1, fresh=3, k=1, random=0), J('coldpin', [16], 1, fresh=3, k=1, random=0, thorough_only=True),
                      D('spawnp', [4], 'SPMC_,MPSC_'), J('spawnp', [2], 1, only_prefix='SPMC_BULK_LOADED', k=12, tk=24, random=0, trandom=0),
-                     J('spawnp', [2], 2, only_prefix='SPMC_BULK_LOADED,SPMC_LPOP_LOADED', k=12, tk=24, random=4, trandom=8, reuse=True), J('spawn', [2, 4], 1, reuse=True), J('yieldspin', W124, 1, k=2, random=4), S('yieldspin', [2, 4], 1), J('yieldspinio', [1, 2], 1, k=1, random=2)]},
+                     J('spawnp', [2], 2, only_prefix='SPMC_BULK_LOADED,SPMC_LPOP_LOADED', k=12, tk=24, random=4, trandom=8, reuse=True), J('spawn', [2, 4], 1, reuse=True), J('yieldspin', W124, 1, k=2, random=4), S('yieldspin', [2, 4], 1), J('yieldspin', [1, 2], 1, 'nosteal', thorough_only=True, k=1, random=0),
+                     J('yieldspin', [2], 1, 'cbsteal', thorough_only=True, k=1, random=0), J('yieldspin', [2], 1, 'randsteal', thorough_only=True, k=1, random=0), J('yieldspinio', [1, 2], 1, k=1, random=2)]},
     'C02': {'jobs': [J('park', W124, 4), J('park', [2], 1, 'asan'), S('parkrace', [2, 4], 2), D('park', [1, 2], 'PARK_,CANCEL_,YIELD_,THREADPARK_'), H('park', [2], 'PARK_SUB_STORED,PARK_SUB_RECHECKED,PARK_UNPARK_SWAPPED,PARK_AFTER_CLEAR'), J('park', [2], 1, fresh=3, k=1, random=0), J('yieldspin', [1, 2], 1, k=1, random=2)]},
     'C05': {'jobs': [J('mutex', W124, 2), J('mutexc', W124, 2), J('relock', [1, 2], 1), J('cvc', [2], 1), J('mutexc', [2, 4], 1, 'asan'), S('hsmutex', [2, 4], 2), S('lockrace', [2, 4], 2), D('mutex', [1, 2], 'MUTEX_,SYNCBLOCKER_,PARK_'), D('mutexc', [2], 'MUTEX_,SYNCBLOCKER_,CANCEL_'), H('mutex', [2], 'MUTEX_LOCK_PUSHED,MUTEX_LOCK_COUNTED,MUTEX_UNLOCK_SUBBED'), J('stale', [1, 2], 1, k=1, random=2)]},
     'C06': {'jobs': [J('chan', W124, 4), J('chan', [2], 2, 'asan'), S('chanrace', [1, 2, 4], 2), D('chan', [1, 2], 'CH_,SEM_,SYNCBLOCKER_'), H('chan', [2], 'CH_MPSC_SEND_PUSHED,CH_MPSC_RECV_REGISTERED,CH_SPSC_SEND_PUSHED,CH_SPSC_SUB_STORED,CH_MPMC_SEND_PUSHED,CH_MPMC_RECV_EMPTY')]},
